@@ -3,7 +3,9 @@ CONSTANTS
   WBITS = 5
   Bug_AtWraps = FALSE
   Bug_IntervalWraps = FALSE
+  Bug_SplineOpLookupByPoint = FALSE
+  Bug_IntReciprocal = FALSE
   TIER = "quick"
 ACTION_CONSTRAINT Emit
-INVARIANTS GridNewOK AcceptOK BinOK TriOK WordOK ReadOK FindOK
+INVARIANTS TheoremsOK AcceptOK GenOK
 CHECK_DEADLOCK FALSE
